@@ -232,12 +232,20 @@ PROPS = {
                 "for real dense indexes over integer-valued data (euclidean/manhattan, tree_init T/F), exactly the inputs the closure sees "
                 "(CSR of _search_graph, distance table from the real _distance_func, leaf from the real _tree_search, generator values from "
                 "the real tau_rand_int on the copy query() makes) and comparing raw heap, visited table, sorted row and public answer "
-                "bit-for-bit; the hypotheses of the theorems (CSR well-formed, leaf duplicate-free, draws < n, raw = data[vo]) are checked on "
+                "bit-for-bit; the same for the SPARSE closure of _init_sparse_search_function on real CSR indexes (sparse_squared_euclidean "
+                "+ sqrt, sparse_manhattan, tree_init T/F; table from the real sparse kernel on the permuted stored CSR rows, leaf from the "
+                "real sparse_tree_search_closure, query handed over as sorted / unsorted CSR, CSR with a stored zero, ndarray and passed "
+                "to the closure as query()'s sparse branch prepares it; search_rng_state unchanged by the call) with the UNCHANGED model "
+                "(the closures differ only in how dist is evaluated: heapify of the empty seed list is a no-op, distance_bound / d_vertex "
+                "are inferred float32, the zero-norm branch is dead); the hypotheses of the theorems (CSR well-formed, leaf duplicate-free, draws < n, raw = data[vo]) are checked on "
                 "the real arrays; the property predicate (distinct, in range, -1 last, ascending, distance = independent float64 metric of "
                 "the query and the CALLER's row) is evaluated on real query() output for dense / CSR / bit-packed data x tree_init x "
                 "compressed x parallel_batch_queries, k > n_neighbors, k > n, zero-norm queries, data points as queries, eps in {0,.1,.5}",
-        "note": TB + "the sampled bit-exact correspondence between Model/Search.lean and search_closure (dense closure, serial mode; the "
-                     "sparse closure and parallel mode have the same loop body and are covered by the API-level predicate only); "
+        "note": TB + "the sampled bit-exact correspondence between Model/Search.lean and search_closure (dense and sparse closures, serial mode, "
+                     "single-row batches, euclidean / manhattan — quick tier, sparse: the tree-routed euclidean index plus, alternating "
+                     "with the seed, euclidean random-init or manhattan random-init closures; the full cross in the thorough tier; parallel mode has the same loop body and is covered by the API-level "
+                     "predicate only; sparse data rows and queries are non-empty and, with tree_init, distinct: routing through an empty "
+                     "hyperplane / empty operand reads out of bounds, memory safety is outside the model); "
                      "dist(data[v], q) is an input of the model (its truth is C07/C08/C09); the final distance correction is applied by "
                      "the real ufunc (C09); float32 distances without NaN; that parallel iterations touch only their own row and private "
                      "tables is C05's footprint check",
